@@ -150,7 +150,7 @@ class ReadElementStatus(SCSICommand):
             decode_bits(data, cls._element_status_page_bits, _r)
             _d = data[8 : 8 + _bc]
             _ed = []
-            while len(_d):
+            while _edl and len(_d):
                 _rr = {}
 
                 decode_bits(_d, cls._element_status_descriptor_bits, _rr)
